@@ -282,6 +282,23 @@ def run(rep, tier, seed):
                         rep.case('narrow %s' % case.canon[:200], nontrivial=True)
                         rep.count('narrow-records')
                         check_case(rep, drv, case)
+    # members of ONE base type told apart by their EXPLICIT tags only, tag numbers of every identifier length (the order of
+    # SET members by tag and the order of their encodings as octet strings disagree once the identifiers differ in length)
+    nums = [0, 5, 30, 31, 127, 128, 300, 16383, 16384, 2 ** 21, 2 ** 28 + 1]
+    for base, bv in ((('str', 4), ('s', b'p')), (('int',), ('i', 7)), (('seq', [('r', None, ('bool',))]), ('seq', [('b', True)]))):
+        for i, na in enumerate(nums):
+            for nb in nums[i + 1:]:
+                for cls_a, cls_b in (('c', 'c'), ('a', 'c'), ('p', 'a')):
+                    for cons in ('set', 'seq'):
+                        for order in ((na, nb), (nb, na)):
+                            t = (cons, [('r', None, ('tag', 'e', cls_a, order[0], base)), ('r', None, ('tag', 'e', cls_b, order[1], base))])
+                            v = ('seq', [bv, bv])
+                            if not gen.wf(t):
+                                continue
+                            case = engine.Case(t, v)
+                            rep.case('same-base %s' % case.canon[:200], nontrivial=True)
+                            rep.count('same-base-records')
+                            check_case(rep, drv, case)
     done = 0
     for case in engine.gen_cases(rng, n * 4, max_depth=3, allow_implicit=False):
         if done >= n:
